@@ -77,7 +77,7 @@ BOTH_ENDS = {"id": "D10-both-ends", "when": "self.is_n_term and self.is_c_term"}
 
 for _res, _p in STATE_PATCH.items():
     contract(
-        f"pdb2pqr.aa:{_res}.set_state", "C02",
+        f"pdb2pqr.aa:{_res}.set_state", ["C02", "C01"],
         params={"self": Obj(f"pdb2pqr.aa:{_res}", name=Named("nm", Enum(_res, _p)), ffname=Ref("nm"),
                             patches=_patchsets(_p, "NEUTRAL-NTERM", "NEUTRAL-CTERM"),
                             is_n_term=Enum(0, 1), is_c_term=Enum(0, 1))},
@@ -95,7 +95,7 @@ for _res, _p in STATE_PATCH.items():
 # residues without a titratable side chain
 for _res in ("ALA", "GLY", "SER", "MET", "TRP"):
     contract(
-        "pdb2pqr.aa:Amino.set_state", "C02",
+        "pdb2pqr.aa:Amino.set_state", ["C02", "C01"],
         params={"self": Obj(f"pdb2pqr.aa:{_res}", name=Const(_res), ffname=Const(_res),
                             patches=_patchsets("NEUTRAL-NTERM", "NEUTRAL-CTERM"),
                             is_n_term=Enum(0, 1), is_c_term=Enum(0, 1))},
@@ -109,7 +109,7 @@ for _res in ("ALA", "GLY", "SER", "MET", "TRP"):
 
 # cysteine: bridged / thiolate / free
 contract(
-    "pdb2pqr.aa:CYS.set_state", "C02",
+    "pdb2pqr.aa:CYS.set_state", ["C02", "C01", "C13"],
     params={"self": Obj("pdb2pqr.aa:CYS", name=Named("nm", Enum("CYS", "CYX", "CYM")), ffname=Ref("nm"),
                         patches=_patchsets("CYX", "CYM", "NEUTRAL-NTERM"),
                         ss_bonded=Enum(0, True), map=OneOf(DictOf(("HG", Obj("Atom", name=Const("HG")))), DictOf()),
@@ -133,7 +133,7 @@ contract(
 # ---------------------------------------------------------------- nucleotides (na.py): ribo/deoxy + 5'/3' suffix
 for _cls, _l in (("ADE", "A"), ("CYT", "C"), ("GUA", "G")):
     contract(
-        f"pdb2pqr.na:{_cls}.set_state", "C02",
+        f"pdb2pqr.na:{_cls}.set_state", ["C02", "C01"],
         params={"self": Obj(f"pdb2pqr.na:{_cls}", ffname=Str,
                             map=OneOf(DictOf(("O2'", Obj("Atom", name=Const("O2'")))), DictOf()),
                             is5term=Enum(0, 1), is3term=Enum(0, 1))},
